@@ -520,6 +520,11 @@ func buildResponse(reg Registry, rec *Recorder, op OpInfo, cc *caseCtx) reflect.
 			rawBody = []byte{}
 		}
 		var rc io.ReadCloser = io.NopCloser(bytes.NewReader(rawBody))
+		if cc.script.Seed%2 == 1 {
+			// a reader that announces the end together with its last bytes (a body with a known length proxied from
+			// upstream, a decompressing reader): Stream.tla's source answering (n, end) in one step
+			rc = newPlannedBody(rawBody, "handler", &ReadPlan{Units: 2, Reads: []ReadStep{{N: 1}, {N: 1, End: true}}})
+		}
 		if reflect.TypeOf(rc).AssignableTo(f.Type()) {
 			f.Set(reflect.ValueOf(rc))
 			hasRaw = true
